@@ -1646,6 +1646,13 @@ func ruleStaleLen(c *Ctx) {
 					if !corrected {
 						corrected = c.subtractsResult(bo.Y, call, map[ssa.Value]bool{})
 					}
+					// … and must lie on EVERY path from the call to the use
+					if corrected {
+						subs := c.subtractionsOf(fn, call)
+						if c.reachesAvoiding(fi, call, bo, subs) {
+							corrected = false
+						}
+					}
 					if !corrected {
 						allOK = false
 						c.fail(key, bo.Pos(), "len(Data) read after the call at %s, which may discard bytes from the front of Data, is combined with a length captured before it without subtracting the discarded count: the difference undercounts the appended bytes (n, Off go wrong, even negative)", c.pos(call.Pos()))
@@ -2051,3 +2058,62 @@ func ruleErrSurface(c *Ctx) {
 }
 
 func key0(fn *ssa.Function, n int) string { return fmt.Sprintf("%s:Data-store#%d", fnName(fn), n) }
+
+// subtractionsOf: the instructions x − result(call) in fn.
+func (c *Ctx) subtractionsOf(fn *ssa.Function, call *ssa.Call) []ssa.Instruction {
+	var out []ssa.Instruction
+	for _, b := range fn.Blocks {
+		for _, in := range b.Instrs {
+			if bo, ok := in.(*ssa.BinOp); ok && bo.Op == token.SUB && stripConv(bo.Y) == call {
+				out = append(out, bo)
+			}
+		}
+	}
+	return out
+}
+
+// reachesAvoiding: is there a path from instruction a to instruction b that
+// executes none of the instructions in avoid?
+func (c *Ctx) reachesAvoiding(fi *FuncInfo, a, b ssa.Instruction, avoid []ssa.Instruction) bool {
+	blocked := func(blk *ssa.BasicBlock, from, to int) bool { // any avoid instr in blk with from < idx < to
+		for _, x := range avoid {
+			if x.Block() == blk {
+				i := fi.instrIx[x]
+				if i > from && i < to {
+					return true
+				}
+			}
+		}
+		return false
+	}
+	ab, bb := a.Block(), b.Block()
+	if ab == bb && fi.instrIx[a] < fi.instrIx[b] {
+		if !blocked(ab, fi.instrIx[a], fi.instrIx[b]) {
+			return true
+		}
+	}
+	if blocked(ab, fi.instrIx[a], 1<<30) {
+		return false
+	}
+	seen := map[*ssa.BasicBlock]bool{}
+	stack := append([]*ssa.BasicBlock{}, ab.Succs...)
+	for len(stack) > 0 {
+		x := stack[len(stack)-1]
+		stack = stack[:len(stack)-1]
+		if seen[x] {
+			continue
+		}
+		seen[x] = true
+		if x == bb {
+			if !blocked(x, -1, fi.instrIx[b]) {
+				return true
+			}
+			continue
+		}
+		if blocked(x, -1, 1<<30) {
+			continue
+		}
+		stack = append(stack, x.Succs...)
+	}
+	return false
+}
